@@ -13,7 +13,7 @@
 //   configuration changes (each followed by the update the API prescribes):
 //     chg_obs <k>                 k-th observation (1-based, over OD) toggled passive/active; update_observations()
 //     chg_xyz <k> <hex mm>        k-th adjustable point shifted; update_residuals()
-//     set_algorithm <alg>         (update(Points) inside)
+//     set_algorithm <alg>         (update(Points) inside); answers `ok <dynamic class of the new solver object>`
 //     refine                      refine_approx_coordinates()
 //     remove_huge                 remove_huge_abs_terms(); prints "huge <0|1>" (whether any term was outlying)
 //   raw readers (no ensure):      raw stdev_obs <i> | raw wcoef_res <i> | raw qxx <i> <j> | raw qbb <i> <j> | raw rhs <i>
@@ -44,6 +44,16 @@ struct GamaVerifProbe {
   static int dim_rhs(const LocalNetwork& n) { return n.rhs_.dim(); }
   static void flags(const LocalNetwork& n, std::ostream& out) {
     out << "fl " << n.tst_redbod_ << " " << n.tst_redmer_ << " " << n.tst_rov_opr_ << " " << n.tst_vyrovnani_ << "\n";
+  }
+  // round 9: dynamic class of the solver object `least_squares` (what set_algorithm(name) really created)
+  static const char* solver_class(const LocalNetwork& n) {
+    typedef GNU_gama::local::MatVecException MVE;
+    if (n.least_squares == nullptr) return "null";
+    if (dynamic_cast<GNU_gama::AdjGSO<double, int, MVE>*>(n.least_squares)) return "AdjGSO";
+    if (dynamic_cast<GNU_gama::AdjSVD<double, int, MVE>*>(n.least_squares)) return "AdjSVD";
+    if (dynamic_cast<GNU_gama::AdjCholDec<double, int, MVE>*>(n.least_squares)) return "AdjCholDec";
+    if (dynamic_cast<GNU_gama::AdjEnvelope<double, int, MVE>*>(n.least_squares)) return "AdjEnvelope";
+    return "other";
   }
 };
 
@@ -201,7 +211,7 @@ int main()
         n.update_residuals();
         std::cout << (done ? "ok\n" : "ok none\n");
       }
-      else if (q == "set_algorithm") { n.set_algorithm(t.at(1)); std::cout << "ok\n"; }
+      else if (q == "set_algorithm") { n.set_algorithm(t.at(1)); std::cout << "ok " << GamaVerifProbe::solver_class(n) << "\n"; }
       else if (q == "refine") { n.refine_approx_coordinates(); std::cout << "ok\n"; }
       else if (q == "remove_huge") { bool h = n.huge_abs_terms(); n.remove_huge_abs_terms(); std::cout << "huge " << (h ? 1 : 0) << "\n"; }
       else if (q == "fresh") {
